@@ -88,7 +88,14 @@ def run(ctx):
     scripts += ctx.tlc_gen("MC_SnapshotRT", GEN.format(maxn=2, maxr=1 if q else 2, tokens="{}", dev="{}", maxh=4 if q else 5, extras="{}",
                                                        view="VIEW View", emit="ACTION_CONSTRAINT Emit", inv="RoundTripIdeal"),
                            "structure", workers=W, timeout=3000)
-    fam = [x for x in scripts if x[0]["op"] == "FamilyRT"]
+    # (d') hierarchy declarations: declared at any point of the history (also before any data, also on an otherwise empty
+    #      graph), over R, over S, over R+S, with / without measure, on plain graphs of <= 2 nodes and <= 1 relationship of
+    #      type R or S -- so over populated types, over types without any relationship, and over two types of which one is empty
+    hier = ctx.tlc_gen("MC_SnapshotRT", GEN.format(maxn=2, maxr=1, tokens="{}", dev="{}", maxh=5, extras='{"hier", "hierfocus"}',
+                                                   view="VIEW View", emit="ACTION_CONSTRAINT Emit", inv="RoundTripIdeal"),
+                       "hier", workers=W, timeout=3000)
+    hier = [x for x in hier if any(st["op"] == "Hier" for st in x)]
+    fam = [x for x in scripts if x[0]["op"] == "FamilyRT"] + hier
     scripts = [x for x in scripts if x[0]["op"] != "FamilyRT"]
     ctx.rng.shuffle(scripts)
     scripts = fam + scripts[:300 if q else 6000]
